@@ -1530,6 +1530,12 @@ private:
                                 return val;
                             }
                             auto x = binary::big_to_native<uint64_t>(buf, sizeof(buf));
+                            if (x > static_cast<uint64_t>((std::numeric_limits<int64_t>::max)()))
+                            {
+                                ec = cbor_errc::number_too_large; // -1-x does not fit in int64_t
+                                more_ = false;
+                                return val;
+                            }
                             val = static_cast<int64_t>(-1)- static_cast<int64_t>(x);
                             break;
                         }
